@@ -8,7 +8,10 @@ regenerated type tags and by the byte-for-byte correspondence run of suite `tlv`
   3. the consistent-length shortcut agrees with the forward scan whenever the segment metadata may offer it
   4. dictionary:     ReadDictEnc (PackDictEnc d) gives every record number its word
   5. timestamps:     the block decodes to the timestamps written
-and the composition 1–3 over the filling of a column with absent / null / late values (`column_roundtrip`).
+and the composition 1–3 over the filling of a column with absent / null / late values (`column_roundtrip`);
+  6. a SEGMENT OF SEVERAL BLOCKS (`Model/TlvSeg.lean`, suite `tlvseg`): the record length the segment finally
+     advertises is sound for every block, for every segment and every sequence of seeks (`segment_roundtrip`);
+     counterexample theorem for the writer before fix b7f8683 (`segment_roundtrip_old_counterexample`).
 The unguarded statements are FALSE where the uint16 length wraps; the counterexample theorems record exactly
 where, and `wf_of_max_record_size` shows the guard is implied by the ingest limit MAX_RECORD_SIZE.
 The end-to-end part of C01 (flattening, type consolidation, block/segment layout) is decided by the
@@ -556,5 +559,49 @@ of numbers is not -/
 example : (writeSeg 501 [[some (.str [97])], [some (.num .i64 5)], [some (.num .i64 6)]]).blocks.map (·.mixed)
       = [false, true, false] ∧
     (writeSeg 501 [[some (.str [97])], [some (.num .i64 5)], [some (.num .i64 6)]]).hint = inconsistent := by decide
+
+/-! ### the block bookkeeping of the flush (every flush resets the block) -/
+
+/-- The statement for a given step function `run` (fixed: `runBlk`, before the fix of FlushSegStats: `runBlkOld`):
+for EVERY history of events (carrying nothing but a timestamp, only nulls, or values) and flushes, the entries of
+the .bsu file are exactly the non-empty blocks cut by the flushes — block `b` at position `b`, under the number
+`b`, with its record count, each once — `numBlocks` is their number and the open block holds the events since the
+last effective flush. In particular the record count the searchers use for block `b` is that of block `b`. -/
+def FlushBookkeeping (run : List BlkOp → BlkSt) : Prop :=
+  ∀ ops : List BlkOp,
+    (run ops).bsu = Lemmas.C01.enumBlocks (cutBlocks ops).1 ∧
+    (run ops).numBlocks = (cutBlocks ops).1.length ∧
+    (run ops).blkRec = (cutBlocks ops).2 ∧
+    ∀ b, b < (cutBlocks ops).1.length → (run ops).readerRecCount b = (cutBlocks ops).1[b]?
+
+/-- C01.6b No block is flushed twice and no flush is lost: `FlushBookkeeping` holds for AppendWipToSegfile as it
+is now (step order: block summary, statistics, reset, `numBlocks += 1`; FlushSegStats has no "nothing to write"
+error). -/
+theorem flush_bookkeeping : FlushBookkeeping runBlk := by
+  intro ops
+  have inv := Lemmas.C01.runBlk_inv ops
+  refine ⟨inv.bsu, inv.nb, inv.recs, fun b hb => ?_⟩
+  unfold BlkSt.readerRecCount
+  rw [inv.bsu, Lemmas.C01.enumBlocks_getElem?]
+  cases (cutBlocks ops).1[b]? <;> simp
+
+/-- Before the fix it was FALSE: FlushSegStats returned "no segstats to flush" while every event of the segment so
+far carried only a timestamp, AppendWipToSegfile returned after writing the block summary but before
+resetWipBlock / `numBlocks += 1`, and the same block was flushed again under the same number. Witness (replayed
+end to end): two timestamp-only events, flush, two events with x, flush, one event with x, flush: the .bsu file
+reads (0,2),(0,4),(1,1); the searchers take 2 records for block 0 (it has 4) and 4 for block 1 (it has 1): `*`
+returned 2 of 5 events, `x=3` none, `stats count` 5. -/
+theorem flush_bookkeeping_old_counterexample : ¬ FlushBookkeeping runBlkOld := by
+  intro h
+  have := (h [.ev .bare, .ev .bare, .flush, .ev .vals, .ev .vals, .flush, .ev .vals, .flush]).1
+  revert this
+  decide
+
+example : (runBlkOld [.ev .bare, .ev .bare, .flush, .ev .vals, .ev .vals, .flush, .ev .vals, .flush]).bsu
+      = [(0, 2), (0, 4), (1, 1)] ∧
+    (runBlk [.ev .bare, .ev .bare, .flush, .ev .vals, .ev .vals, .flush, .ev .vals, .flush]).bsu
+      = [(0, 2), (1, 2), (2, 1)] ∧
+    cutBlocks [.ev .bare, .ev .bare, .flush, .flush, .ev .vals, .ev .vals, .flush, .ev .vals] = ([2, 2], 1) := by
+  decide
 
 end SigModel.Props.C01
